@@ -84,6 +84,7 @@ def _rules():
             lambda R, c, rid: accessors.range_accessors(R, c, rid),
             lambda R, c, rid: accessors.binary_searches(R, c, rid),
             lambda R, c, rid: accessors.identity_table(R, c, rid),
+            lambda R, c, rid: accessors.range_last_id(R, c, rid),
         ],
         "content": [
             lambda R, c, rid: shared.content_tables(R, c, rid),
@@ -175,7 +176,7 @@ DEPENDS = {
     "C05": ["conflict", "squash", "splice", "dependency", "map-api", "merge", "delete-set", "update-events", "liveness", "type-api"],
     "C06": ["dependency", "delete-set", "slice", "partial", "lookup", "content", "merge", "state-vector", "liveness", "block-wire"],
     "C07": ["delete-set", "slice", "partial", "export", "liveness", "block-wire", "state-vector", "creation"],
-    "C08": ["slice", "delete-set", "partial", "block-wire", "state-vector", "merge"],
+    "C08": ["slice", "delete-set", "partial", "block-wire", "state-vector", "merge", "lookup"],
     "C09": ["slice", "partial", "content", "identity", "weak-wire", "block-wire"],
     "C11": ["liveness", "observers"],
     "C12": ["splice", "squash", "lookup", "delete-set"],
